@@ -25,6 +25,24 @@ CHECKS = {
     note=TRUSTED + 'vk/ref/refjs.py as oracle (cross-validated against acorn during development, self-tested on 7.9.2 examples at start); '
          'Annex B forms / escaped identifiers are oracle_uncertain; inputs containing the trigger of an open known finding are skipped and counted.',
     design='DESIGN.md section 3, C03'),
+ 'C04': dict(
+    technique='differential + metamorphic runtime monitor on semicolon-omission variants, plus ASI event log (wrappers on Lexer.auto_semi/_create_semi_token) checked against the reference insertion points',
+    level='exploration',
+    text='For generated programs with explicit semicolons, every subset (<=6, sampled beyond) of the statement terminators is replaced '
+         'by one of 12 separators (each line terminator kind, comments with/without breaks, nothing); the real parser must accept exactly '
+         'the variants 7.9 makes valid, build the same tree as the reference, and insert synthetic semicolons at exactly the reference\'s '
+         'insertion points (observed through wrappers on the lexer). 119 hand-written hazard templates x separator products are enumerated. '
+         'Held on the executions observed.',
+    note=TRUSTED + 'refjs ASI implementation (7.9.1 literal) as oracle; ES5.1 dialect (no do-while leniency).',
+    design='DESIGN.md section 3, C04'),
+ 'C05': dict(
+    technique='token-stream runtime monitor (wrapper on Lexer._token, last token delivered at an offset wins) + tree cross-check, against the lexical goal the reference parser used at each slash',
+    level='exploration',
+    text='Product workload of 96 preceding constructs x 11 layouts x 10 following texts (quick: a third of the exotic layouts), generated '
+         'programs and the corpus. For every text the reference accepts, each token starting with "/" must have been delivered to the parser, '
+         'and recorded in the tree, as the class (division / regex) the grammar position dictates; a rejection of such a text is a violation too.',
+    note=TRUSTED + 'refjs goal-symbol selection as oracle; only inputs refjs accepts are judged.',
+    design='DESIGN.md section 3, C05'),
 }
 
 PENDING = 'monitor planned in DESIGN.md section 3 but not built yet in this round; no claim is made'
